@@ -31,9 +31,28 @@ impl gix_object::Find for Odb {
     }
 }
 
+fn is_reuse(c: &Case) -> bool {
+    f_str(c, 0) == b"reuse"
+}
+fn odb_start(c: &Case) -> usize {
+    if is_reuse(c) {
+        6
+    } else {
+        4
+    }
+}
+/// the pair of root trees the verdict is about
+fn roots(c: &Case) -> (&[u8], &[u8]) {
+    if is_reuse(c) {
+        (f_str(c, 4), f_str(c, 5))
+    } else {
+        (f_str(c, 1), f_str(c, 2))
+    }
+}
+
 fn odb_of(c: &Case) -> Odb {
     let mut m = HashMap::new();
-    let mut i = 4;
+    let mut i = odb_start(c);
     while i + 1 < c.len() {
         if c[i].len() == 20 {
             let id = ObjectId::from_bytes_or_panic(&c[i]);
@@ -47,17 +66,79 @@ fn odb_of(c: &Case) -> Odb {
     Odb(m)
 }
 
+/// A delegate that records like `Recorder` and cancels at the k-th visit (k = 0: never).
+struct CancelAt {
+    inner: Recorder,
+    k: u64,
+    seen: u64,
+}
+impl gix_diff::tree::Visit for CancelAt {
+    fn pop_front_tracked_path_and_set_current(&mut self) {
+        self.inner.pop_front_tracked_path_and_set_current()
+    }
+    fn push_back_tracked_path_component(&mut self, component: &gix_object::bstr::BStr) {
+        self.inner.push_back_tracked_path_component(component)
+    }
+    fn push_path_component(&mut self, component: &gix_object::bstr::BStr) {
+        self.inner.push_path_component(component)
+    }
+    fn pop_path_component(&mut self) {
+        self.inner.pop_path_component()
+    }
+    fn visit(&mut self, change: gix_diff::tree::visit::Change) -> gix_diff::tree::visit::Action {
+        self.seen += 1;
+        self.inner.visit(change);
+        if self.k != 0 && self.seen == self.k {
+            gix_diff::tree::visit::Action::Cancel
+        } else {
+            gix_diff::tree::visit::Action::Continue
+        }
+    }
+}
+
+fn diff_pair(odb: &Odb, lhs: &[u8], rhs: &[u8], state: &mut State) -> Result<Vec<Change>, gix_diff::tree::Error> {
+    let mut rec = Recorder::default();
+    gix_diff::tree(TreeRefIter::from_bytes(lhs), TreeRefIter::from_bytes(rhs), state, odb, &mut rec)?;
+    Ok(rec.records)
+}
+
+/// the diff the case is about; for `reuse` cases: the second diff, with the State the first one left behind
 fn run_diff(c: &Case) -> Result<Vec<Change>, gix_diff::tree::Error> {
     let odb = odb_of(c);
-    let mut rec = Recorder::default();
-    gix_diff::tree(
-        TreeRefIter::from_bytes(f_str(c, 1)),
-        TreeRefIter::from_bytes(f_str(c, 2)),
-        State::default(),
-        &odb,
-        &mut rec,
-    )?;
-    Ok(rec.records)
+    let mut state = State::default();
+    if is_reuse(c) {
+        let mut first = CancelAt { inner: Recorder::default(), k: f_u64(c, 3), seen: 0 };
+        let _ = gix_diff::tree(
+            TreeRefIter::from_bytes(f_str(c, 1)),
+            TreeRefIter::from_bytes(f_str(c, 2)),
+            &mut state,
+            &odb,
+            &mut first,
+        );
+    }
+    let (l, r) = roots(c);
+    diff_pair(&odb, l, r, &mut state)
+}
+/// the same pair with a fresh State
+fn run_diff_fresh(c: &Case) -> Result<Vec<Change>, gix_diff::tree::Error> {
+    let odb = odb_of(c);
+    let (l, r) = roots(c);
+    diff_pair(&odb, l, r, &mut State::default())
+}
+
+fn show_result(r: &Result<Vec<Change>, gix_diff::tree::Error>) -> String {
+    match r {
+        Ok(records) => {
+            let mut s = String::from("ok");
+            for r in records {
+                s.push_str(&format!(" {:?}", r));
+            }
+            s
+        }
+        Err(gix_diff::tree::Error::Find(_)) => "err Find".into(),
+        Err(gix_diff::tree::Error::EntriesDecode(_)) => "err EntriesDecode".into(),
+        Err(gix_diff::tree::Error::Cancelled) => "err Cancelled".into(),
+    }
 }
 
 // ------------------------------------------------------------------------------------------- impl
@@ -71,7 +152,7 @@ fn show_rel(r: &Option<Relation>) -> String {
 }
 
 fn imp(c: &Case) -> String {
-    if f_str(c, 0) != b"diff" {
+    if f_str(c, 0) != b"diff" && !is_reuse(c) {
         return "?".into();
     }
     match run_diff(c) {
@@ -196,7 +277,7 @@ fn flatten(objs: &HashMap<Vec<u8>, (bool, Vec<u8>)>, data: &[u8], prefix: &[u8],
 
 fn objs_of(c: &Case) -> HashMap<Vec<u8>, (bool, Vec<u8>)> {
     let mut m = HashMap::new();
-    let mut i = 4;
+    let mut i = odb_start(c);
     while i + 1 < c.len() {
         let obj = &c[i + 1];
         let v = if obj.is_empty() { (false, vec![]) } else { (obj[0] == b't', obj[1..].to_vec()) };
@@ -214,13 +295,22 @@ enum Ch {
 }
 
 fn prop(c: &Case) -> Verdict {
-    if f_str(c, 0) != b"diff" {
+    if f_str(c, 0) != b"diff" && !is_reuse(c) {
         return Verdict::ok(false, "?");
     }
     let objs = objs_of(c);
     let (mut fa, mut fb) = (Flat::new(), Flat::new());
-    let valid = flatten(&objs, f_str(c, 1), b"", &mut fa, 0).is_some() && flatten(&objs, f_str(c, 2), b"", &mut fb, 0).is_some();
+    let (root_l, root_r) = roots(c);
+    let valid = flatten(&objs, root_l, b"", &mut fa, 0).is_some() && flatten(&objs, root_r, b"", &mut fb, 0).is_some();
     let got = run_diff(c);
+    if is_reuse(c) {
+        // a State left behind by a cancelled or failed diff must not influence the next diff
+        let fresh = run_diff_fresh(c);
+        let (a, b) = (show_result(&got), show_result(&fresh));
+        if a != b {
+            return Verdict::fail("state-reuse-differs", format!("reused: {} fresh: {}", a, b));
+        }
+    }
     if !valid {
         // malformed input: the only expectation is a definite answer (panics and hangs are caught by the driver)
         return Verdict::ok(false, if got.is_ok() { "malformed-ok" } else { "malformed-err" });
@@ -375,7 +465,7 @@ fn run_git(dir: &std::path::Path, args: &[&str], stdin: &[u8]) -> Option<(bool, 
 /// compared with `git diff-tree -r -t --no-renames`.
 fn git(c: &Case) -> String {
     if f_str(c, 0) != b"diff" {
-        return "-".into();
+        return "-".into(); // reuse cases: the second diff is judged by prop() against a fresh State and the map difference
     }
     let objs = objs_of(c);
     let (mut fa, mut fb) = (Flat::new(), Flat::new());
@@ -583,6 +673,34 @@ fn case_of(a: &[(Vec<u8>, Node)], b: &[(Vec<u8>, Node)], flag: &[u8]) -> (Case, 
     (c, objs)
 }
 
+/// reuse <lhs1> <rhs1> <k> <lhs2> <rhs2> objects…; with `missing` one subtree used only by the first pair is left out
+fn reuse_case(a1: &[(Vec<u8>, Node)], b1: &[(Vec<u8>, Node)], k: u64, a2: &[(Vec<u8>, Node)], b2: &[(Vec<u8>, Node)], missing: bool) -> Case {
+    let mut objs1 = Vec::new();
+    let l1 = write_dir(a1, &mut objs1);
+    let r1 = write_dir(b1, &mut objs1);
+    let mut objs2 = Vec::new();
+    let l2 = write_dir(a2, &mut objs2);
+    let r2 = write_dir(b2, &mut objs2);
+    let mut c = vec![tag("reuse"), l1, r1, num(k), l2, r2];
+    let mut dropped = !missing;
+    // last written = closest to the root: dropping it fails the first diff after other pairs were queued
+    for (id, o) in objs1.iter().rev() {
+        if !objs2.iter().any(|(i, _)| i == id) {
+            if !dropped {
+                dropped = true;
+                continue;
+            }
+            c.push(id.clone());
+            c.push(o.clone());
+        }
+    }
+    for (id, o) in &objs2 {
+        c.push(id.clone());
+        c.push(o.clone());
+    }
+    c
+}
+
 fn leaf(m: u32, k: u8) -> Node {
     Node::Leaf(m, vec![k; 20])
 }
@@ -630,8 +748,46 @@ fn gen(rng: &mut Rng, n: usize) -> Vec<Case> {
     for (a, b) in &fixed {
         out.push(case_of(a, b, b"v").0);
     }
+    // ---- State reuse after a cancelled first diff: directory "d" changed (its pair is queued), then file "z" changed
+    {
+        let a1 = vec![e(b"d", d(vec![e(b"x", f(1)), e(b"s", d(vec![e(b"t", f(1))]))])), e(b"z", f(1))];
+        let b1 = vec![e(b"d", d(vec![e(b"x", f(2)), e(b"s", d(vec![e(b"t", f(2))]))])), e(b"z", f(2))];
+        let seconds: Vec<(Vec<(Vec<u8>, Node)>, Vec<(Vec<u8>, Node)>)> = vec![
+            (vec![e(b"a", f(1))], vec![e(b"a", f(2))]),
+            (vec![], vec![]),
+            (vec![e(b"q", d(vec![e(b"r", f(1))]))], vec![e(b"q", d(vec![e(b"r", f(3))])), e(b"u", f(1))]),
+            (vec![e(b"d", d(vec![e(b"x", f(1))]))], vec![]),
+        ];
+        for (a2, b2) in &seconds {
+            for k in 0..=4u64 {
+                out.push(reuse_case(&a1, &b1, k, a2, b2, false));
+            }
+            out.push(reuse_case(&a1, &b1, 0, a2, b2, true));
+        }
+    }
     // ---- random stream
     while out.len() < n {
+        if rng.chance(1, 7) {
+            // first pair: related trees with directories; cancelled at a random visit or a subtree is missing
+            let depth = rng.range(1, 3) as usize;
+            let na = rng.range(1, 5) as usize;
+            let a1 = rand_entries(rng, na, depth);
+            let b1 = match mutate(rng, &Node::Dir(a1.clone()), depth + 1) {
+                Node::Dir(es) => es,
+                x => vec![e(b"a", x)],
+            };
+            let na2 = rng.range(0, 4) as usize;
+            let d2 = rng.range(0, 2) as usize;
+            let a2 = rand_entries(rng, na2, d2);
+            let b2 = match mutate(rng, &Node::Dir(a2.clone()), d2 + 1) {
+                Node::Dir(es) => es,
+                x => vec![e(b"a", x)],
+            };
+            let missing = rng.chance(1, 4);
+            let k = if missing { 0 } else { rng.range(1, 6) as u64 };
+            out.push(reuse_case(&a1, &b1, k, &a2, &b2, missing));
+            continue;
+        }
         let depth = rng.range(0, 3) as usize;
         let na = rng.range(0, 5) as usize;
         let a = rand_entries(rng, na, depth);
